@@ -1,6 +1,6 @@
 (* C06 -- property theorems only: each is closed by [exact] of a lemma proved elsewhere. *)
-From Coq Require Import List NArith ZArith.
-From Muscle Require Import Refl.Base Refl.BaseProofs Refl.Tree Refl.Matcher Refl.Session Refl.Server Refl.ServerProofs
+From Coq Require Import List NArith ZArith Bool.
+From Muscle Require Import Gen.Consts Refl.Base Refl.BaseProofs Refl.Tree Refl.Matcher Refl.Session Refl.Server Refl.ServerProofs
      Refl.IsoModel Refl.IsoBase Refl.IsoFrame Refl.IsoProofs Refl.IsoTold Refl.IsoDetach Refl.IsoRun Refl.IsoClean
      Refl.IsoSimBase Refl.IsoSim Refl.IsoHosts Refl.IsoNever Refl.IsoHonest Refl.IsoQuiet Refl.IsoExamples.
 Import ListNotations.
@@ -9,6 +9,25 @@ Import ListNotations.
 Theorem C06_setpriv_ignored : forall (M : MatchOps) fx nest xs s bits, xhandle fx nest xs s (XSetPriv bits) = xs.
 Proof. exact @setpriv_ignored. Qed.
 Print Assumptions C06_setpriv_ignored.
+
+(* the translated what-codes / privilege bits the dispatcher model branches on are pairwise distinct and in range *)
+Theorem C06_dispatch_codes_ok :
+  NoDup [c_PR_COMMAND_KICK; c_PR_COMMAND_ADDBANS; c_PR_COMMAND_ADDREQUIRES; c_PR_COMMAND_REMOVEBANS; c_PR_COMMAND_REMOVEREQUIRES;
+         c_PR_COMMAND_PING; c_PR_COMMAND_GETPARAMETERS; c_PR_COMMAND_GETDATATREES; c_PR_COMMAND_SETDATATREES; c_PR_COMMAND_NOOP;
+         c_PR_COMMAND_JETTISONRESULTS; c_PR_COMMAND_JETTISONDATATREES; c_PR_COMMAND_SETPARAMETERS; c_PR_COMMAND_REMOVEPARAMETERS;
+         c_PR_COMMAND_SETDATA; c_PR_COMMAND_REMOVEDATA; c_PR_COMMAND_GETDATA; c_PR_COMMAND_BATCH; c_PR_COMMAND_INSERTORDEREDDATA;
+         c_PR_COMMAND_REORDERDATA] /\
+  forallb in_command_range
+        [c_PR_COMMAND_KICK; c_PR_COMMAND_ADDBANS; c_PR_COMMAND_ADDREQUIRES; c_PR_COMMAND_REMOVEBANS; c_PR_COMMAND_REMOVEREQUIRES;
+         c_PR_COMMAND_PING; c_PR_COMMAND_GETPARAMETERS; c_PR_COMMAND_GETDATATREES; c_PR_COMMAND_SETDATATREES; c_PR_COMMAND_NOOP;
+         c_PR_COMMAND_JETTISONRESULTS; c_PR_COMMAND_JETTISONDATATREES; c_PR_COMMAND_SETPARAMETERS; c_PR_COMMAND_REMOVEPARAMETERS;
+         c_PR_COMMAND_SETDATA; c_PR_COMMAND_REMOVEDATA; c_PR_COMMAND_GETDATA; c_PR_COMMAND_BATCH; c_PR_COMMAND_INSERTORDEREDDATA;
+         c_PR_COMMAND_REORDERDATA] = true /\
+  NoDup [c_PR_PRIVILEGE_KICK; c_PR_PRIVILEGE_ADDBANS; c_PR_PRIVILEGE_REMOVEBANS] /\
+  forallb (fun b => N.ltb b c_PR_NUM_PRIVILEGES) [c_PR_PRIVILEGE_KICK; c_PR_PRIVILEGE_ADDBANS; c_PR_PRIVILEGE_REMOVEBANS] = true /\
+  N.ltb c_PR_RESULT_ERRORACCESSDENIED c_BEGIN_PR_COMMANDS || N.ltb c_END_PR_COMMANDS c_PR_RESULT_ERRORACCESSDENIED = true.
+Proof. exact dispatch_codes_ok. Qed.
+Print Assumptions C06_dispatch_codes_ok.
 
 (* FRAME.  For every state xs (reachable or not), every session s that holds no privilege, and every list of commands cs
    -- any what-code, absolute paths, '..', wildcards, forged privilege bits and session fields, batches -- after the server
